@@ -72,3 +72,19 @@ pub mod from_ax {
 }
 pub use from_ax::*;
 broadcast use {from_self_is_identity, from_self_obeys};
+
+// ---- call site: MessageGroup::decrypt ---------------------------------------------------------------------------------------
+pub trait IdentityHandle: Copy + PartialEq + Eq + Hash {}
+pub struct AeadError { pub e: u8 }
+pub enum GroupError<ID> { DecryptionRatchet(RatchetError), Aead(AeadError), DecryptionRachetUnavailable(ID, Generation) }
+impl<ID> vstd::std_specs::convert::FromSpecImpl<AeadError> for GroupError<ID> {
+    open spec fn obeys_from_spec() -> bool { true }
+    open spec fn from_spec(e: AeadError) -> Self { GroupError::Aead(e) }
+}
+impl<ID> From<AeadError> for GroupError<ID> { fn from(e: AeadError) -> (r: Self) { GroupError::Aead(e) } }
+#[verifier::reject_recursive_types(ID)]
+pub struct GroupState<ID> { pub decryption_ratchet: HashMap<ID, DecryptionRatchetState>, pub config: GroupConfig, pub rest: u8 }
+#[verifier::reject_recursive_types(ID)]
+pub struct MessageGroup<ID> { pub g: Ghost<Option<ID>> }
+#[verifier::external_body]
+pub fn decrypt_message(ciphertext: &[u8], ratchet_secrets: RatchetKeyMaterial) -> (r: Result<Vec<u8>, AeadError>) { unimplemented!() }
